@@ -1,5 +1,5 @@
 //! C15 — documented-unsupported features are refused, not silently ignored.
-use crate::props::c11::expect_err;
+use crate::props::c11::expect_err_class;
 use mc_core::ase::*;
 use mc_core::explore::*;
 use mc_core::gen::{self, *};
@@ -30,7 +30,7 @@ pub fn run(ctx: &Ctx) -> i32 {
                     let mut f = base.clone();
                     f.header.pixel_w = pw;
                     f.header.pixel_h = ph;
-                    expect_err(ctx, "pixel-ratio", &case, &f.encode(), "the pixel aspect ratio is not 1:1");
+                    expect_err_class(ctx, "pixel-ratio", &case, &f.encode(), "the pixel aspect ratio is not 1:1", hash64(&("ratio", bn, pw.min(ph) == 1, pw > ph)));
                 }
             });
         }
@@ -65,7 +65,7 @@ pub fn run(ctx: &Ctx) -> i32 {
                 // replace an existing profile chunk's meaning by inserting the unsupported one
                 let (ty, flags, icc) = kinds[*k].clone();
                 f.frames[*fi].chunks.insert(*pos, Chunk::new(Body::ColorProfile(ColorProfile { ty, flags, gamma: 0x0002_3333, reserved: [0; 8], icc })));
-                expect_err(ctx, "color-profile", &case, &f.encode(), "the file carries an embedded ICC profile or the fixed-gamma flag");
+                expect_err_class(ctx, "color-profile", &case, &f.encode(), "the file carries an embedded ICC profile or the fixed-gamma flag", hash64(&("profile", bn, fi, pos, k)));
             });
         }
         ctx.family("color-profile", n, "colour profile chunk of type ICC (with payload / empty payload / no payload field) or with the fixed-gamma flag on type none/sRGB/ICC, inserted at every chunk boundary of every frame of every base", true);
@@ -91,7 +91,7 @@ pub fn run(ctx: &Ctx) -> i32 {
                     }
                     let mut f = base.clone();
                     set(&mut f, i, *v);
-                    expect_err(ctx, fam, &case, &f.encode(), why);
+                    expect_err_class(ctx, fam, &case, &f.encode(), why, hash64(&(fam, bn, i)));
                 });
             }
         }
@@ -142,7 +142,7 @@ pub fn run(ctx: &Ctx) -> i32 {
                     let case = || format!("{} tag[{}].direction={}", bn, t, d);
                     let mut f = base.clone();
                     tags_mut(&mut f, 0).tags[t].dir = d;
-                    expect_err(ctx, "anim-direction", &case, &f.encode(), "a tag has an unknown animation direction");
+                    expect_err_class(ctx, "anim-direction", &case, &f.encode(), "a tag has an unknown animation direction", hash64(&("dir", bn, t)));
                 }
             }
         }
@@ -163,13 +163,14 @@ pub fn run(ctx: &Ctx) -> i32 {
                     ts.flags = flags;
                     ts.ext_file = 1;
                     ts.ext_tileset = 0;
-                    expect_err(ctx, "external-tileset", &case, &f.encode(), "a tileset's pixels are not embedded in the file");
+                    expect_err_class(ctx, "external-tileset", &case, &f.encode(), "a tileset's pixels are not embedded in the file", hash64(&("ext", bn, i, flags)));
                 }
             }
         }
         ctx.family("external-tileset", total, "every tileset of every base with the 'tiles embedded' flag bit cleared (flags 0, 1, 4, 5, all-but-bit-1, high bits), with and without an external-file reference", true);
     }
     ctx.sample(json!({"family": "layer-type", "case": "b1 layer-type[1]=3", "meaning": "base b1 with the type field of layer 1 set to 3: load must return an error"}));
+    ctx.set_rule("Exhaustive enumeration (no sampling) of every value of each unsupported-feature switch at every position where it can occur in each base sprite; evaluations = files generated and loaded; distinct_nontrivial = distinct (feature family, base sprite, entity / position altered, error variant returned) classes, counted by the machinery; a case is non-trivial when the altered file differs from a loadable base in exactly that one feature.");
     ctx.note("pixel ratios pw = ph > 1 are 1:1 ratios the library happens to refuse; claimed neither here nor in C07");
     ctx.finish()
 }
